@@ -128,7 +128,7 @@ macro_rules! run_onehot_impl {
 run_onehot_impl!(run_onehot_f64, f64);
 run_onehot_impl!(run_onehot_f32, f32);
 
-fn check_onehot(case: &OneHotCase, ctx: &mut Ctx) -> Result<(), Fail> {
+pub fn check_onehot(case: &OneHotCase, ctx: &mut Ctx) -> Result<(), Fail> {
     let x = if case.f32 { to_f32_grid(&case.x) } else { case.x.clone() };
     let mut sorted = case.cat_idx.clone();
     sorted.sort();
